@@ -21,7 +21,8 @@ package main
 // Both are decided as one comparison of multisets of (class, stretch, residue list).  The
 // quantifier is the theorems': classes (key + qualifiers) all of whose members have a well-formed,
 // duplicate-free location inside the record — for a piece that goes through gts.Rotate also the
-// domain of the Normalize law (no ambiguous leaf, no full-length part); known finding K2 is
+// domain of the Normalize law (no full-length part, no ambiguous span ACROSS THE NEW ORIGIN of that
+// rotation — an ambiguous span elsewhere is inside the quantifier and checked); known finding K2 is
 // attributed through the guard lines of exactly the Expand / Reverse / Normalize calls made
 // (`k2.*`, answered by the model: Cli.Piece.abs / Cli.cwinAbs of the theorems).
 
@@ -88,14 +89,22 @@ func wfLoc(l gts.Location) bool {
 	return true
 }
 
-// c15RotDomain: the domain of the Normalize law (Gts.Loc.normOk on non-negative coordinates):
-// no ambiguous leaf, no part as long as the record
-func c15RotDomain(l gts.Location, L int) bool {
-	if hasAmbiguous(l) {
-		return false
-	}
+// c15RotDomain: the domain of the Normalize law (Gts.Loc.normOk on non-negative coordinates) for the
+// rotations the record goes through (`rots`: the amounts m, 0 <= m < L, of the gts.Rotate calls made for
+// this record): no part as long as the record, and no ambiguous span ACROSS THE NEW ORIGIN of one of
+// them (`ambCrossesOrigin`, the ambiguous clause of normOk; before the audit follow-up every
+// ambiguous leaf was excluded, which is more than the theorems' guard excludes).
+func c15RotDomain(l gts.Location, L int, rots []int) bool {
 	for _, u := range leaves(l) {
 		if v, ok := u.(gts.Ranged); ok && v.End-v.Start >= L {
+			return false
+		}
+		if v, ok := u.(gts.Ambiguous); ok && v.End-v.Start >= L {
+			return false
+		}
+	}
+	for _, m := range rots {
+		if ambCrossesOrigin(l, m, L) {
 			return false
 		}
 	}
@@ -104,8 +113,9 @@ func c15RotDomain(l gts.Location, L int) bool {
 
 // c15FeatView decides the feature clause for ONE written record.  guard(f) yields the k2.* lines
 // of the calls made on feature f for this record.
-func c15FeatView(r *Run, line, cmd string, in, out gts.Sequence, D []pos, stretches []c15Stretch, rot bool,
+func c15FeatView(r *Run, line, cmd string, in, out gts.Sequence, D []pos, stretches []c15Stretch, rots []int,
 	guard func(f gts.Feature) []string) {
+	rot := len(rots) > 0
 	L := len(in.Bytes())
 	r.count("feature-oracle/" + cmd + "/records")
 	// classes of the input and whether the theorems speak about them
@@ -118,8 +128,29 @@ func c15FeatView(r *Run, line, cmd string, in, out gts.Sequence, D []pos, stretc
 		}
 		members[k] = append(members[k], f)
 		d := den(f.Loc)
-		if !wfLoc(f.Loc) || !coordsWithin(f.Loc, L) || !nodup(d) || (rot && !c15RotDomain(f.Loc, L)) {
+		if !wfLoc(f.Loc) || !coordsWithin(f.Loc, L) || !nodup(d) || (rot && !c15RotDomain(f.Loc, L, rots)) {
 			classOK[k] = false
+			if rot && hasAmbiguous(f.Loc) && wfLoc(f.Loc) && coordsWithin(f.Loc, L) && nodup(d) {
+				for _, m := range rots {
+					if ambCrossesOrigin(f.Loc, m, L) {
+						r.count("feature-oracle/" + cmd + "/skipped: ambiguous span across the new origin of the rotation (normOk)")
+						break
+					}
+				}
+			}
+		}
+	}
+	for k, ok := range classOK {
+		if !ok {
+			continue
+		}
+		for _, f := range members[k] {
+			if hasAmbiguous(f.Loc) {
+				r.count("feature-oracle/" + cmd + "/features with an ambiguous span evaluated")
+				if rot {
+					r.count("feature-oracle/" + cmd + "/features with an ambiguous span evaluated through a rotation")
+				}
+			}
 		}
 	}
 	want := map[string]int{}
@@ -340,9 +371,15 @@ func c15ExtractFeatures(r *Run, c c15Case, line string, regs []gts.Region, outs 
 			return
 		}
 		rot := false
+		var rots []int // a wrap leaf lo < 0 <= hi is cut by gts.Slice(seq, lo+L, hi) = Rotate(seq, -(lo+L)) then Slice(0, …)
 		for _, s := range c15Leaves(x) {
 			if c15LeafKind(s, L) == "wrap" {
 				rot = true
+				lo := s[0]
+				if s[1] < lo {
+					lo = s[1]
+				}
+				rots = append(rots, ((-lo)%L+L)%L)
 			}
 		}
 		switch {
@@ -360,7 +397,7 @@ func c15ExtractFeatures(r *Run, c c15Case, line string, regs []gts.Region, outs 
 			r.count("feature-oracle/extract/forward-segment")
 		}
 		x := x
-		c15FeatView(r, line, "extract", c.seq, outs[i], D, st, rot, func(f gts.Feature) []string {
+		c15FeatView(r, line, "extract", c.seq, outs[i], D, st, rots, func(f gts.Feature) []string {
 			var ls []string
 			c15LocateGuards(f, x, L, &ls)
 			return ls
@@ -414,7 +451,11 @@ func c15SplitCircularFeatures(r *Run, c c15Case, line string, rr gts.Regions, ou
 			return
 		}
 		w := w
-		c15FeatView(r, line, "split-circular", c.seq, outs[i], D, []c15Stretch{{0, len(D)}}, wrap, func(f gts.Feature) []string {
+		var rots []int
+		if wrap && L > 0 {
+			rots = []int{((-w.a)%L + L) % L}
+		}
+		c15FeatView(r, line, "split-circular", c.seq, outs[i], D, []c15Stretch{{0, len(D)}}, rots, func(f gts.Feature) []string {
 			return c15WindowGuards(f, w.a, w.b, L, w.whole)
 		})
 	}
